@@ -259,7 +259,7 @@ func taintByNewCode(mine []*Obligation, killers []*Obligation, opt dischargeOpts
 				break // the rest of the chain was visited through another obligation
 			}
 			seen[p] = true
-			if p.Result == nil && !anyBase[normOb(p.Name)] {
+			if p.Result == nil {
 				unknown = append(unknown, p)
 			}
 		}
@@ -291,9 +291,9 @@ func taintByNewCode(mine []*Obligation, killers []*Obligation, opt dischargeOpts
 		}
 		for n := o.prior; n != nil; n = n.prev {
 			p := n.ob
-			if p.Result != nil && p.Result.Status != "unsat" && !anyBase[normOb(p.Name)] {
+			if p.Result != nil && p.Result.Status != "unsat" {
 				o.Result = &SolverResult{Status: "unknown", All: map[string]string{},
-					Raw: "proved only under an assumption that is itself not discharged: " + p.Name + " (" + p.Desc + "), raised earlier on the same path in code the baseline does not cover"}
+					Raw: "proved only under an assumption that is itself not discharged: " + p.Name + " (" + p.Desc + "), asserted earlier on the same path"}
 				break
 			}
 		}
